@@ -799,8 +799,14 @@ func (s *Server) streamLTXSnapshot(ctx context.Context, w http.ResponseWriter, d
 	if timeout == 0 {
 		timeout = s.store.Retention
 	}
-	ctx, cancel := context.WithTimeoutCause(ctx, timeout, fmt.Errorf("snapshot timeout exceeded (%s)", timeout))
-	defer cancel()
+
+	// No LTX file is ever removed when retention is disabled so there is
+	// nothing to time out against.
+	if timeout > 0 {
+		var cancel context.CancelFunc
+		ctx, cancel = context.WithTimeoutCause(ctx, timeout, fmt.Errorf("snapshot timeout exceeded (%s)", timeout))
+		defer cancel()
+	}
 
 	// Write frame.
 	if err := litefs.WriteStreamFrame(w, &litefs.LTXStreamFrame{Name: db.Name()}); err != nil {
